@@ -11,7 +11,7 @@
    Definitions only.  The tokenizer (Tokenizer.get, Token.unescape, unescape_to_bytes) is the
    shared model Model/TokM.v; name text/wire is Model/NameM.v + Model/ParserM.v. *)
 From DV Require Import Base.Prelude Model.NameM Model.ParserM.
-From DV Require Model.TokM Model.ZoneTextM.
+From DV Require Model.TokM Model.ZoneTextM Model.UntrustedTextM.
 Open Scope Z_scope.
 
 (* ---------- exception codes (Lib) ---------- *)
@@ -660,6 +660,8 @@ Definition run (c : obs) : obs :=
   | L (I 61 :: r) => TokM.run (L r)
   (* whole zone files / read_rrsets texts: C09's model of the reader *)
   | L (I 62 :: r) => ZoneTextM.run (L r)
+  (* dns.message.from_text: Model/UntrustedTextM.v *)
+  | L (I 63 :: r) => UntrustedTextM.run (L r)
   (* an oracle probe [entry name; payload] (replay files): the property says "no failure" *)
   | L (B _ :: _) => N
   | _ => E eBadCase
